@@ -22,12 +22,12 @@ def run(tier, seed, mutant=None, only_validate=False):
                     for mb in ((2,) if tier == "quick" else (1, 2, 3)):
                         r, rec = amod.mc(res, work, "KafkaBatched", "latest%d_refresh%d_mb%d" % (latest, refresh, mb),
                                          dict(NP0=1, MaxParts=2, MaxMsgs=3 if tier == "quick" else 4, MaxBatch=mb, Latest=latest,
-                                              Refresh=refresh, MaxCrashes=1 if tier == "quick" else 2, InOrder=True),
+                                              Refresh=refresh, MaxCrashes=1 if tier == "quick" else 2, InOrder=True, Faults=True),
                                          INVS, workers=16, coverage=False, timeout=3000)
                         amod.spec_violation(res, r, rec, {}, "C09", "kafka")
             # the proviso "batches of a partition complete in order" is necessary: without it TLC finds the loss
             r, rec = amod.mc(res, work, "KafkaBatched", "no_inorder", dict(NP0=1, MaxParts=1, MaxMsgs=3, MaxBatch=1, Latest=False,
-                             Refresh=False, MaxCrashes=1, InOrder=False), ["AtLeastOnce"], coverage=False)
+                             Refresh=False, MaxCrashes=1, InOrder=False, Faults=False), ["AtLeastOnce"], coverage=False)
             rec["expected_violation"] = "AtLeastOnce"
             rec["ok"] = r.violated == "AtLeastOnce"
             if r.violated != "AtLeastOnce":
@@ -47,7 +47,7 @@ def run(tier, seed, mutant=None, only_validate=False):
             key = (c["np0"], c["maxparts"], c["maxbatch"], c["latest"], c["refresh"])
             groups.setdefault(key, []).append({"id": r["id"], "ev": r["ev"]})
         glist = [("kafka np0=%s maxparts=%s maxbatch=%s latest=%s refresh=%s" % k,
-                  dict(NP0=k[0], MaxParts=k[1], MaxMsgs=100, MaxBatch=k[2], Latest=k[3], Refresh=k[4], MaxCrashes=100, InOrder=True), ts)
+                  dict(NP0=k[0], MaxParts=k[1], MaxMsgs=100, MaxBatch=k[2], Latest=k[3], Refresh=k[4], MaxCrashes=100, InOrder=True, Faults=True), ts)
                  for k, ts in groups.items()]
         reached, problems = amod.validate_groups(work, "KafkaBatchedTrace", glist, timeout=1800)
         res.traces = len(runs)
